@@ -106,6 +106,9 @@ func (s *State) ExpandMacros(program ast.Node) ast.Node {
 		// Same limits as the evaluation this expansion is part of (a macro body can loop or recurse too).
 		evalEnv.Context = s.Context
 		evalEnv.MaxDepth = s.MaxDepth
+		// (and it runs on the same stack: an expansion started deep inside a recursion, through eval(), continues at that depth.)
+		evalEnv.depth = s.depth
+		evalEnv.nesting = s.nesting
 		evalEnv.Out = s.Out
 		evalEnv.LogOut = s.LogOut
 
